@@ -6,8 +6,8 @@
   option without expression node).  `Statement` says that no such error is reachable from a well-formed script.
   Proved for every input:
 
-  * `column_up_total`, `column_down_total` — printing the columns of a table cannot fail unless the table is being
-    created (resp. re-created by the down side) with an empty column list;
+  * `column_up_total`, `column_down_total` — printing the columns of a table cannot fail (since the repair of the
+    `t.Columns[0]` site: a table all of whose columns were dropped prints an empty CREATE TABLE);
   * `index_walk_total` — printing the indexes cannot fail unless a *redefined* index is of a kind other than
     plain/unique/primary;
   * `fk_walk_total` is trivial (the foreign-key walk is a total function).
@@ -44,28 +44,17 @@ def Statement : Prop :=
     ∀ m, ReaderMysql.run {} ss = .ok m →
       isPanic (m.migrationUp g) = false ∧ ∀ m' out, m.migrationUp g = .ok (m', out) → isPanic (m'.migrationDown g) = false
 
-theorem column_up_total (g : Globals) (t : Table) (h : t.action ≠ .add ∨ t.cols ≠ []) :
-    ∃ r, t.migrationColumnUp g = .ok r := by
+/-- printing the columns of a table never fails (a table without columns prints an empty CREATE TABLE) -/
+theorem column_up_total (g : Globals) (t : Table) : ∃ r, t.migrationColumnUp g = .ok r := by
   unfold Table.migrationColumnUp
-  cases ha : t.action <;> simp only [pure, Except.pure] <;> try exact ⟨_, rfl⟩
-  -- table action `add`: needs a first column
-  rcases h with h | h
-  · exact absurd ha h
-  · cases hc : t.cols with
-    | nil => exact absurd hc h
-    | cons c r =>
-      simp [Table.createTableStmts, getIdx, hc, bind, Except.bind, pure, Except.pure]
+  cases t.action <;> exact ⟨_, rfl⟩
 
-theorem column_down_total (g : Globals) (t : Table) (h : t.action ≠ .remove ∨ t.cols ≠ []) :
-    ∃ r, t.migrationColumnDown g = .ok r := by
+theorem column_down_total (g : Globals) (t : Table) : ∃ r, t.migrationColumnDown g = .ok r := by
   unfold Table.migrationColumnDown
-  cases ha : t.action with
+  cases t.action with
   | none => exact ⟨_, rfl⟩
-  | add => exact column_up_total g { t with action := .remove } (Or.inl (by simp))
-  | remove =>
-    rcases h with h | h
-    · exact absurd ha h
-    · exact column_up_total g { t with action := .add } (Or.inr h)
+  | add => exact column_up_total g { t with action := .remove }
+  | remove => exact column_up_total g { t with action := .add }
   | modify => exact ⟨_, rfl⟩
   | revert => exact ⟨_, rfl⟩
   | rename => exact ⟨_, rfl⟩
@@ -111,7 +100,7 @@ theorem primitives_total (t : Table) (h : t.Inv) :
 example : (({ name := "t", action := .add, colIdx := [("a", 3)] } : Table).removeColumn "a") =
     .error "index out of range: removeColumn" := by rfl
 
--- non-vacuity: the excluded shapes do fail in the model (they are the panic sites of the Go code)
-example : (Table.new "t" .add).migrationColumnUp {} = .error "index out of range: MigrationColumnUp: t.Columns[0]" := by rfl
+-- the repaired site: a created table without columns prints (it used to index `t.Columns[0]`)
+example : ((Table.new "t" .add).migrationColumnUp {}).toOption.map (·.1) = some [.createTable "t" 0 [] []] := by rfl
 
 end Sqlize.C09
